@@ -373,29 +373,29 @@ func (e *Env) inlineLit(x *ast.CallExpr, fl *ast.FuncLit) Value {
 			i++
 		}
 	}
-	// defers inside the literal run when the literal returns
-	savedDefers, savedExit := e.defers, e.exitB
-	e.defers = nil
-	litExit := e.newBlock("lit-exit")
-	e.exitB = litExit
-	fr := &inlineFrame{retB: litExit, sig: sig}
+	// defers inside the literal run when the literal returns; a panic raised inside it runs
+	// them too and then continues unwinding in the enclosing function
+	savedDefers, savedArmed, savedPost, savedUnw := e.defers, e.mayArmed, e.postB, e.unwindTo
+	e.defers, e.mayArmed = nil, map[*deferSite]bool{}
+	litPost := e.newBlock("lit-post")
+	e.postB = litPost
+	e.unwindTo = nil
+	fr := &inlineFrame{retB: nil, sig: sig, lit: true}
 	e.inlineRet = append(e.inlineRet, fr)
 	savedCtx := e.ctxStack
 	e.ctxStack = nil
 	e.block(fl.Body.List)
 	e.ctxStack = savedCtx
 	e.inlineRet = e.inlineRet[:len(e.inlineRet)-1]
-	e.jump(litExit)
-	e.cur = litExit
-	e.runDefers()
-	e.defers, e.exitB = savedDefers, savedExit
-	// an exceptional exit of the literal continues unwinding in the caller
+	e.leave()
+	e.defers, e.mayArmed, e.postB, e.unwindTo = savedDefers, savedArmed, savedPost, savedUnw
+	e.cur = litPost
 	if e.hasMayPanicCall {
 		cont := e.newBlock("lit-cont")
 		unw := e.newBlock("lit-unwind")
 		e.cur.Succ = append(e.cur.Succ, cont, unw)
 		unw.Cmds = append(unw.Cmds, Cmd{Kind: CAssume, T: e.panicVar()})
-		unw.Succ = append(unw.Succ, e.exitB)
+		e.unwindFrom(unw)
 		cont.Cmds = append(cont.Cmds, Cmd{Kind: CAssume, T: Not(e.panicVar())})
 		e.cur = cont
 	}
@@ -416,7 +416,7 @@ func (e *Env) callFuncValue(x *ast.CallExpr, o *types.Var, rt types.Type) Value 
 	if o.Parent() == o.Pkg().Scope() {
 		key = o.Pkg().Path() + "." + o.Name()
 	} else {
-		key = o.Pkg().Path() + "." + e.fn.Name() + "$" + o.Name()
+		key = o.Pkg().Path() + "." + e.fn.Name() + "_" + o.Name()
 	}
 	if fc, ok := e.w.Cs.Funcs[key]; ok {
 		return e.callContract(fc, key, sig, nil, args, x.Pos(), rt)
@@ -428,7 +428,13 @@ func (e *Env) callFuncValue(x *ast.CallExpr, o *types.Var, rt types.Type) Value 
 // ---------------------------------------------------------------------
 // Calls by contract
 
+type ptrLeaf struct {
+	id *Term
+	lf leaf
+}
+
 type modSpec struct {
+	ptrs   []ptrLeaf
 	roots  []Value // objects whose by-value leaves may change
 	refs   []*Term // byte arrays that may be written (refs, pre-state)
 	ghosts []string
@@ -585,6 +591,11 @@ func (e *Env) callContract(fc *FuncContract, key string, sig *types.Signature, r
 			}
 		})
 	}
+	for _, pl := range ms.ptrs {
+		for _, c := range leafComps(pl.lf.K, pl.lf.ElemU) {
+			havocs = append(havocs, hv{heapMap(pl.lf.Owner, pl.lf.Field) + c.Suf, c.S, pl.id})
+		}
+	}
 	for _, h := range havocs {
 		e.declare(h.name, h.s)
 		snapshot(h.name, h.s)
@@ -726,10 +737,7 @@ func (e *Env) callContract(fc *FuncContract, key string, sig *types.Signature, r
 		cont := e.newBlock("cont")
 		here.Succ = append(here.Succ, unw, cont)
 		unw.Cmds = append(unw.Cmds, Cmd{Kind: CAssume, T: e.panicVar()})
-		if len(e.inlineRet) > 0 && e.exitB == nil {
-			e.errorf("%s: may-panic call inside inlined function", e.w.pos(pos))
-		}
-		unw.Succ = append(unw.Succ, e.exitB)
+		e.unwindFrom(unw)
 		e.cur = cont
 		e.assume(Not(e.panicVar()))
 	} else if ms.panic {
@@ -819,6 +827,27 @@ func (e *Env) modSpecOf(fc *FuncContract, key string, sig *types.Signature, actu
 			} else {
 				e.errorf("modifies mem(%s): not a slice", x.String())
 			}
+		case (strings.HasPrefix(m, "ptr(") || strings.HasPrefix(m, "field(")) && strings.HasSuffix(m, ")"):
+			x, err := parseSpecExpr(m[strings.Index(m, "(")+1 : len(m)-1])
+			if err != nil || x.Kind != "sel" {
+				e.errorf("bad modifies item %q", m)
+				continue
+			}
+			base := pctx.tr(x.Args[0])
+			if base.K != VPtr && base.K != VStruct {
+				e.errorf("modifies %s: base is not an object", m)
+				continue
+			}
+			bt := base.Typ
+			if base.K == VPtr {
+				bt = derefType(bt)
+			}
+			steps, lf, _, ok := findField(bt, x.Name)
+			if !ok || lf == nil || (lf.K != VPtr && strings.HasPrefix(m, "ptr(")) {
+				e.errorf("modifies %s: not a (pointer) leaf field", m)
+				continue
+			}
+			ms.ptrs = append(ms.ptrs, ptrLeaf{subID(base.T, steps), *lf})
 		case strings.HasPrefix(m, "G$"):
 			ms.globals = append(ms.globals, m)
 		default:
